@@ -46,6 +46,7 @@ ASSUMPTIONS = ['the pull bound is asserted for overlap < step size (as in '
                'are excepted by the statement and are not used in the '
                'bodies']
 CASE_CPU_SECONDS = 200.0
+CASE_CPU_SECONDS_QUICK = 15.0
 BUDGET = 200
 INF = -1
 
